@@ -20,8 +20,10 @@
 //!   poll <j>           poll the (j mod len)-th entry of the ready list
 //!   idle               FIFO polls until no task is woken
 //!   get                synchronous read (no state change; the observable carries the value)
-//!   bread              a stand-in `<Suspense/>` boundary (a child owner providing a `SuspenseContext`) reads the value
-//!                      synchronously (`get_untracked()` under that owner)
+//!   bread              a new reader (a child owner) under a stand-in `<Suspense/>` boundary (an owner providing a
+//!                      `SuspenseContext`) reads the value synchronously (`get_untracked()` in the reader's owner)
+//!   attach s           a new reader under the boundary awaits the value (`ScopedFuture` in its owner, like a `Suspend`)
+//!   bdrop              every reader under the boundary is disposed (owner cleanup; the awaiting futures are dropped)
 //!   a 6th cfg field (plain kinds, `sig` only) gives the fetcher's reads as `<body>/<pre>/<post>`, each `-` or a
 //!        `.`-separated list of `R<i>` (read source i), `C<i>` (read source i only if source 0, as read earlier in
 //!        this run, was non-zero), `X` (read source 1 + flag % (k-1)): body = in the closure before the async block,
@@ -51,7 +53,8 @@ use futures::FutureExt;
 use hx_common::{parse_cli, quiet_panics, sched, Cmd, Rng};
 use leptos_server::{ArcLocalResource, ArcOnceResource, ArcResource, LocalResource, OnceResource, Resource};
 use reactive_graph::computed::suspense::SuspenseContext;
-use reactive_graph::computed::{ArcAsyncDerived, ArcMemo, AsyncDerived};
+use futures::future::{AbortHandle, Abortable};
+use reactive_graph::computed::{ArcAsyncDerived, ArcMemo, AsyncDerived, ScopedFuture};
 use reactive_graph::owner::provide_context;
 use slotmap::{DefaultKey, SlotMap};
 use reactive_graph::effect::Effect;
@@ -93,6 +96,8 @@ struct Shared {
     /// value-writing events in real-time order: manual writes and fetch futures returning
     writers: Vec<W>,
     aw: Vec<Option<u32>>,
+    /// awaiters under the boundary whose reader was disposed before they resumed
+    aw_aborted: Vec<bool>,
     elog: Vec<(Option<u32>, Option<u32>)>,
     /// number of ops applied so far
     clock: usize,
@@ -430,13 +435,16 @@ impl Dv {
 struct Boundary {
     owner: Owner,
     tasks: ArcRwSignal<SlotMap<DefaultKey, ()>>,
+    /// the readers created so far and not yet disposed; the abort handles of the awaiting ones
+    readers: Vec<Owner>,
+    aborts: Vec<AbortHandle>,
 }
 impl Boundary {
     fn new(parent: &Owner) -> Self {
         let tasks = ArcRwSignal::new(SlotMap::new());
         let owner = parent.child();
         owner.with(|| provide_context(SuspenseContext { tasks: tasks.clone() }));
-        Boundary { owner, tasks }
+        Boundary { owner, tasks, readers: vec![], aborts: vec![] }
     }
     fn pending(&self) -> usize {
         self.tasks.read_untracked().len()
@@ -468,6 +476,11 @@ struct Live {
     bread_at: Vec<usize>,
     mset_at: Vec<usize>,
     first_poll_d: Option<usize>,
+    /// op clock values of the polls of live awaiters under the boundary (each registers the boundary)
+    saw_poll_at: Vec<usize>,
+    /// the awaiters under the boundary spawned before this spawn index have been dropped with their reader
+    saw_dropped_upto: usize,
+    no_reader: bool,
 }
 
 fn opt(v: Option<u32>) -> String {
@@ -503,6 +516,9 @@ impl Live {
             bread_at: vec![],
             mset_at: vec![],
             first_poll_d: None,
+            saw_poll_at: vec![],
+            saw_dropped_upto: 0,
+            no_reader: true,
         }
     }
     fn teardown(&mut self) {
@@ -608,6 +624,17 @@ impl Live {
         });
     }
 
+    /// bookkeeping for a poll: the first poll of the derived's task, polls of awaiters under the boundary
+    fn note_poll(&mut self, polled: Option<usize>, clock: usize) {
+        let Some(id) = polled else { return };
+        if id == self.d_id() && self.first_poll_d.is_none() {
+            self.first_poll_d = Some(clock);
+        }
+        if id >= self.aw_base + self.saw_dropped_upto && self.spawned.get(id - self.aw_base) == Some(&'s') {
+            self.saw_poll_at.push(clock);
+        }
+    }
+
     /// spawn index of the derived's own task: a local resource's first fetch spawns its tick task before it
     fn d_id(&self) -> usize {
         if self.kind.is_local() { 1 } else { 0 }
@@ -693,7 +720,8 @@ impl Live {
         }
         let t_cur = takes.last().copied();
         let t_prev = if takes.len() >= 2 { Some(takes[takes.len() - 2]) } else { None };
-        let covered = self.bread_at.iter().any(|b| t_prev.map(|p| *b > p).unwrap_or(true));
+        let covered = self.bread_at.iter().any(|b| t_prev.map(|p| *b > p).unwrap_or(true))
+            || self.saw_poll_at.iter().any(|b| t_prev.map(|p| *b > p).unwrap_or(true) && t_cur.map(|c| *b <= c).unwrap_or(false));
         let mset_during = self.mset_at.iter().any(|m| t_cur.map(|c| *m > c).unwrap_or(true));
         let expected = match g.writers.last() {
             Some(W::Manual(v)) => Some(*v),
@@ -708,6 +736,9 @@ impl Live {
             "fail suspense-missed"
         } else if rl.is_empty() && !in_flight && bp != 0 {
             "fail suspense-stuck"
+        } else if self.no_reader && bp != 0 {
+            // the boundary waits although no reader under it exists any more
+            "fail suspense-stale"
         } else if !settled {
             "ok"
         } else if ld {
@@ -715,7 +746,7 @@ impl Live {
         } else if val != expected {
             self.saw_stale = true;
             "fail stale"
-        } else if g.aw.iter().any(|r| r.is_none()) {
+        } else if g.aw.iter().zip(&g.aw_aborted).any(|(r, x)| r.is_none() && !*x) {
             "fail awaiter-parked"
         } else if self.eff != EffKind::None && g.elog.last().map(|r| r.0) != Some(val) {
             "fail subscriber-stale"
@@ -732,7 +763,7 @@ impl Live {
             ld as u8,
             nf,
             join(fin.iter().map(|v| v.to_string()).collect(), "."),
-            join(g.aw.iter().map(|r| opt(*r)).collect(), ","),
+            join(g.aw.iter().zip(&g.aw_aborted).map(|(r, x)| if *x { "x".into() } else { opt(*r) }).collect(), ","),
             join(g.elog.iter().map(|(d, m)| format!("{}:{}", opt(*d), opt(*m))).collect(), ";"),
             bp,
             verdict
@@ -807,7 +838,7 @@ impl Live {
             return BAD.into();
         }
         let dv = self.dv.clone().unwrap();
-        if self.kind.is_once() && matches!(w.as_slice(), ["set", ..] | ["refetch"] | ["mset", ..] | ["attach", "b"]) {
+        if self.kind.is_once() && matches!(w.as_slice(), ["set", ..] | ["refetch"] | ["mset", ..] | ["attach", "b"] | ["attach", "s"]) {
             return BAD.into();
         }
         // a local resource has no `Write` impl, no `ready()` and no `by_ref()`
@@ -866,6 +897,7 @@ impl Live {
                         "v" => 'v',
                         "r" => 'r',
                         "b" => 'b',
+                        "s" => 's',
                         _ => return BAD.into(),
                     }
                 } else {
@@ -875,14 +907,34 @@ impl Live {
                 let i = {
                     let mut g = self.sh.lock().unwrap();
                     g.aw.push(None);
+                    g.aw_aborted.push(false);
                     g.aw.len() - 1
                 };
                 let sh = self.sh.clone();
-                self.spawned.push('a');
-                any_spawner::Executor::spawn_local(async move {
-                    let v = dv.await_value(how).await;
-                    sh.lock().unwrap().aw[i] = Some(v);
-                });
+                if how == 's' {
+                    // like a `Suspend` below the boundary: the future runs in a reader's owner (so its polls see
+                    // the `SuspenseContext`) and is dropped when the reader is disposed
+                    let b = self.boundary.as_mut().unwrap();
+                    let reader = b.owner.child();
+                    let fut = reader.with(|| ScopedFuture::new(dv.await_value('v')));
+                    let (handle, reg) = AbortHandle::new_pair();
+                    b.readers.push(reader);
+                    b.aborts.push(handle);
+                    self.no_reader = false;
+                    self.spawned.push('s');
+                    any_spawner::Executor::spawn_local(async move {
+                        match Abortable::new(fut, reg).await {
+                            Ok(v) => sh.lock().unwrap().aw[i] = Some(v),
+                            Err(_) => sh.lock().unwrap().aw_aborted[i] = true,
+                        }
+                    });
+                } else {
+                    self.spawned.push('a');
+                    any_spawner::Executor::spawn_local(async move {
+                        let v = dv.await_value(how).await;
+                        sh.lock().unwrap().aw[i] = Some(v);
+                    });
+                }
             }
             ["poll", j] => {
                 let Some(j) = idx(j) else { return BAD.into() };
@@ -890,19 +942,22 @@ impl Live {
                 if r.len() >= 2 {
                     self.tags.insert("schedule-choice");
                 }
-                if sched::poll_nth_ready(j) == Some(self.d_id()) && self.first_poll_d.is_none() {
-                    self.first_poll_d = Some(clock);
-                }
+                let polled = sched::poll_nth_ready(j);
+                self.note_poll(polled, clock);
             }
             ["idle"] => {
                 for _ in 0..100_000 {
-                    match sched::poll_nth_ready(0) {
-                        None => break,
-                        Some(id) if id == self.d_id() && self.first_poll_d.is_none() => {
-                            self.first_poll_d = Some(clock)
-                        }
-                        _ => {}
+                    // every poll gets its own clock value (the order of a take and a registration matters)
+                    let clock = {
+                        let mut g = self.sh.lock().unwrap();
+                        g.clock += 1;
+                        g.clock
+                    };
+                    let polled = sched::poll_nth_ready(0);
+                    if polled.is_none() {
+                        break;
                     }
+                    self.note_poll(polled, clock);
                 }
             }
             ["get"] => {}
@@ -914,12 +969,29 @@ impl Live {
                     (true, true) => "boundary-read-reloading",
                 });
                 let before = sched::task_count();
-                let b = self.boundary.as_ref().unwrap();
-                let _ = b.owner.with(|| dv.get_untracked());
+                let b = self.boundary.as_mut().unwrap();
+                let reader = b.owner.child();
+                let _ = reader.with(|| dv.get_untracked());
+                b.readers.push(reader);
+                self.no_reader = false;
                 for _ in before..sched::task_count() {
                     self.spawned.push('r');
                 }
                 self.bread_at.push(clock);
+            }
+            ["bdrop"] => {
+                self.tags.insert(if self.in_flight() { "readers-dropped-during-fetch" } else { "readers-dropped" });
+                let b = self.boundary.as_mut().unwrap();
+                for reader in b.readers.drain(..) {
+                    reader.cleanup();
+                }
+                for h in b.aborts.drain(..) {
+                    h.abort();
+                }
+                self.bread_at.clear();
+                self.saw_poll_at.clear();
+                self.saw_dropped_upto = self.spawned.len();
+                self.no_reader = true;
             }
             _ => return BAD.into(),
         }
@@ -1147,6 +1219,74 @@ fn gen_suspense(g: &mut Gen, thorough: bool) {
     }
 }
 
+/// readers under the boundary that come and go: synchronous reads and awaiters (`attach s`), `bdrop` at every
+/// phase (before a load, while a load holds their ids, between loads), then reloads
+fn gen_readers(g: &mut Gen, thorough: bool) {
+    let cfgs: Vec<String> = [
+        "cfg arc 0 - none", "cfg arena 0 - d", "cfg arc-unsync 0 7 none", "cfg arena-unsync 0 - none memo",
+        "cfg res 0 - none", "cfg res-arc 0 - d",
+    ]
+    .iter()
+    .map(|s| s.to_string())
+    .collect();
+    let alphabet = ["set", "complete last", "bread", "attach s", "bdrop", "poll 0", "poll 1", "idle"];
+    for len in 1..=3 {
+        gen_exhaustive_cfgs(g, len, &alphabet, &cfgs, &format!("b{len}-"));
+    }
+    gen_exhaustive_cfgs(g, 4, &alphabet, &cfgs[..2], "b4-");
+    if thorough {
+        gen_exhaustive_cfgs(g, 4, &alphabet, &cfgs[2..], "b4-");
+        gen_exhaustive_cfgs(g, 5, &alphabet, &cfgs[..1], "b5-");
+    }
+    // after a first load, with a reader that has read / awaited the value
+    let pre: Vec<String> = cfgs
+        .iter()
+        .flat_map(|c| {
+            ["idle;complete last;idle;bread;idle", "idle;complete last;idle;attach s;idle", "bread;attach s;idle;complete last;idle"]
+                .iter()
+                .map(move |p| format!("{c};{p}"))
+        })
+        .collect();
+    let alphabet2 = ["set", "complete last", "bread", "attach s", "bdrop", "poll 0", "poll 1"];
+    for cfgpre in &pre {
+        let n = alphabet2.len();
+        let len = if thorough { 4 } else { 3 };
+        for code in 0..n.pow(len as u32) {
+            let mut c = code;
+            let mut l: Vec<String> = cfgpre.split(';').map(|s| s.to_string()).collect();
+            let mut next_val = 1;
+            for _ in 0..len {
+                let a = alphabet2[c % n];
+                c /= n;
+                if a == "set" {
+                    l.push(format!("set 0 {next_val}"));
+                    next_val += 1;
+                } else {
+                    l.push(a.to_string());
+                }
+            }
+            settle(&mut l, 3);
+            // and one more reload after everything has settled
+            l.push("set 0 9".into());
+            settle(&mut l, 3);
+            g.case("bt-", &l);
+        }
+    }
+    // local and once resources
+    let other: Vec<String> = ["cfg local 0 - none", "cfg local-arc 0 - d", "cfg once 3 - none", "cfg once-arc 3 - d"]
+        .iter()
+        .map(|s| s.to_string())
+        .collect();
+    let lalpha = ["set", "complete last", "bread", "attach s", "bdrop", "poll 0", "poll 1", "poll 2"];
+    for len in 1..=3 {
+        gen_exhaustive_cfgs(g, len, &lalpha, &other[..2], &format!("bl{len}-"));
+    }
+    let oalpha = ["complete last", "bread", "attach", "bdrop", "poll 0", "poll 1", "idle"];
+    for len in 1..=(if thorough { 5 } else { 4 }) {
+        gen_exhaustive_cfgs(g, len, &oalpha, &other[2..], &format!("bo{len}-"));
+    }
+}
+
 /// fetchers with conditional / indexed reads placed in the closure body, before and after the first await, so
 /// that an input is first read in a second or later run: every write sequence that flips the flag / index and
 /// then writes the newly read input, interleaved with completions and polls
@@ -1321,9 +1461,9 @@ fn gen_random(g: &mut Gen, rng: &mut Rng) {
     let mut naw = 0;
     for _ in 0..len {
         match rng.below(20 + 2 * poll_bias) {
-            0..=7 if once => l.push((*rng.pick(&["bread", "attach", "complete last", "poll 0"])).to_string()),
+            0..=7 if once => l.push((*rng.pick(&["bread", "attach", "complete last", "poll 0", "bdrop"])).to_string()),
             0..=3 => l.push(format!("set {} {}", rng.below(k), rng.below(10))),
-            4 => l.push("bread".into()),
+            4 => l.push((*rng.pick(&["bread", "bread", "bdrop"])).to_string()),
             5 => l.push("refetch".into()),
             6 | 7 if local => l.push("complete last".into()),
             6 | 7 => l.push(format!("mset {}", rng.range(50, 59))),
@@ -1334,7 +1474,13 @@ fn gen_random(g: &mut Gen, rng: &mut Rng) {
                     naw += 1;
                     l.push(format!(
                         "attach {}",
-                        if local { "v" } else if once { *rng.pick(&["v", "r"]) } else { *rng.pick(&["v", "v", "r", "b"]) }
+                        if local {
+                            *rng.pick(&["v", "s"])
+                        } else if once {
+                            *rng.pick(&["v", "r"])
+                        } else {
+                            *rng.pick(&["v", "v", "r", "b", "s"])
+                        }
                     ));
                 }
             }
@@ -1363,6 +1509,7 @@ fn generate(seed: u64, n: usize, path: &str, tier: &str) -> std::io::Result<()> 
     gen_suspense(&mut g, thorough);
     gen_resources(&mut g, thorough);
     gen_dynamic(&mut g, thorough);
+    gen_readers(&mut g, thorough);
     if thorough {
         gen_exhaustive(&mut g, 4, &alphabet, &EFFS, "x4-");
         gen_exhaustive(&mut g, 5, &core, &EFFS, "y5-");
